@@ -291,13 +291,20 @@ def safeChar (c : Char) : Bool :=
 
 def shellSafe (s : Str) : Bool := s.all safeChar
 
+/-- mvdan/sh reads its SOURCE with a carriage return before a line feed dropped (also inside quotes); a value that arrived by
+    template is source text by then, one that arrives through the environment is not -/
+def shSource : Str → Str
+  | '\r' :: '\n' :: rest => '\n' :: shSource rest
+  | c :: rest => c :: shSource rest
+  | [] => []
+
 /-- value of a piece and whether it was quoted; `none`: outside the modelled shell subset -/
 def ShPiece.eval (tv : Vars) (env : Str → Option Str) : ShPiece → Option (Str × Bool)
   | .bare t => if shellSafe t then some (t, false) else none
   | .tref n => let v := value tv n; if shellSafe v then some (v, false) else none
   | .evar n => let v := (env n).getD []; if shellSafe v then some (v, false) else none
   | .dq n => some ((env n).getD [], true)
-  | .sq items => some (items.flatMap (fun i => match i with | .text t => t | .ref n => value tv n), true)
+  | .sq items => some (shSource (items.flatMap (fun i => match i with | .text t => t | .ref n => value tv n)), true)
 
 /-- a word: concatenation; an unquoted word that expands to nothing disappears -/
 def evalWord (tv : Vars) (env : Str → Option Str) (w : List ShPiece) : Option (Option Str) :=
